@@ -45,14 +45,27 @@ func isTruncatorRun(o *shaping.Output) bool {
 	return o.Glyphs[0].Mask >= truncMaskBase
 }
 
+var wrapSharedIter shaping.RunIterator
+
 // wrap runs the library on a fresh copy of the inputs.
 func (p *mPara) wrap(lw *shaping.LineWrapper) (res *wResult, raw [][]shaping.Output) {
 	c := p.c
 	runs := p.copyRuns()
 	var it shaping.RunIterator
-	if c.Iter == 1 {
+	switch c.Iter {
+	case 1:
 		it = newListIter(runs)
-	} else {
+	case 2:
+		// one library iterator object for the whole process, re-armed through its Reset method (pooled iterators)
+		if wrapSharedIter == nil {
+			wrapSharedIter = shaping.NewSliceIterator(runs)
+		} else if rs, ok := wrapSharedIter.(interface{ Reset([]shaping.Output) }); ok {
+			rs.Reset(runs)
+		} else {
+			wrapSharedIter = shaping.NewSliceIterator(runs)
+		}
+		it = wrapSharedIter
+	default:
 		it = shaping.NewSliceIterator(runs)
 	}
 	cfg := p.config()
